@@ -424,8 +424,11 @@ void TasmanianSparseGrid::loadNeededValues(const double *vals){
     base->loadNeededValues(vals);
 }
 void TasmanianSparseGrid::loadNeededValues(const std::vector<double> &vals){
+    if (empty()) throw std::runtime_error("Cannot load model values into an empty grid!");
     size_t nump = (size_t) base->getNumNeeded();
     if (nump == 0) nump = (size_t) base->getNumPoints();
+    // a grid whose needed points were cleared before anything was loaded has no points, an empty vector must not pass the size test
+    if (nump == 0) throw std::runtime_error("ERROR: loadNeededValues() called for a grid that has neither needed nor loaded points");
     nump *= (size_t) base->getNumOutputs();
     if (vals.size() != nump) throw std::runtime_error("ERROR: loadNeededPoints() given the wrong number of inputs, should be getNumNeeded() * getNumOutputs() or (if getNumNeeded() == 0) getNumPoints() * getNumOutputs()");
     loadNeededValues(vals.data());
